@@ -14,6 +14,24 @@ CLAIMED = {
  "C02": ("exploration", "differential runtime oracle + block-membership reconstruction (must/may) over generated scenarios",
          "Every returned row is checked to be a stored, matching row, never more often than stored; without a prefilter the multiset must be exact; with one the result must be a union of whole blocks between must(block) and may(block). High false-positive rates are over-represented so only row verification keeps non-matching rows out.",
          "Trusted: harness/refsem, block membership read back through ReadDataBlockRowData.", "6/C02"),
+ "C04": ("exploration", "exact-arithmetic (math/big) oracle over the public conversion/evaluation functions + prefilter-only queries on generated scenarios",
+         "Function layer: for generated Go numeric values of every kind (named types, huge unsigned, floats beyond int64, infinities) and boundary operands, whenever exact arithmetic says the value satisfies a condition the block built through ConvertToMinMaxInt64/UpdateMinMaxIndex must pass EvaluateMinMaxCondition / EvaluateDataBlockMetadata / FilterDataBlocks, alone and inside AND/OR trees. Engine layer: after flush and merge, a prefilter-only query a stored row satisfies must return the row.",
+         "Trusted: math/big comparison as the meaning of 'satisfies'; NaN excluded as documented.", "6/C04"),
+ "C11": ("exploration", "before/after inventory + differential queries around each committed Merge",
+         "Populations written by up to three engine configurations are merged for up to six rounds by an engine with fresh limits; after every committed Merge the multiset of row ids, each row's partition and minmax coverage, and the answers of 30 queries (exact equality without prefilter, superset-of-matching with) are compared against the state before.",
+         "Trusted: inventory read back through ReadDataBlockRowData; reference semantics for 'matches'.", "6/C11"),
+ "C12": ("exploration", "MetaStore.Update call log of each Merge mapped back to source blocks through row ids",
+         "Each committed Merge's writes/deletes are checked against the merging engine's limits: combined blocks within MaxRowGroupRows/Bytes and from one partition and one minmax key set, copied blocks whole, deletes <= MaxFilesToMergePerOperation, merged sources per output <= MaxFileSize.",
+         "File size for merging = sum of block OnDiskSize (the engine's documented measure).", "6/C12"),
+ "C17": ("exploration", "independent format parser (harness/extfmt) + ledger vs. every file the engine leaves behind",
+         "Every file in the stores after generated flush/merge histories must parse with ReadFileMetadata, agree field for field with an independent parser written from FILE_FORMAT.md, tile exactly (row data from 0, sections in block order, footer adjacent), carry correct CRC32C/sizes/row counts/codec, return through the public helpers exactly the bytes and filters on disk, and report entry counts equal to what the reference walker measures.",
+         "Trusted: harness/extfmt, harness/refsem, klauspost/compress and bits-and-blooms decoders.", "6/C17"),
+ "C18": ("exploration", "reference walker/tokeniser entries tested against real filter bits; ledger vs. block minmax/partition metadata",
+         "For every block and file after generated histories: every field path, token and field:token pair of every row tests positive in the block filters and the file filters (footer copy and MetaStore copy); minmax key sets are exactly what rows provided numerically, ranges cover every value (exact arithmetic); partition ids equal the partition function on every row.",
+         "Trusted: harness/refsem; membership key for pairs path::token.", "6/C18"),
+ "C25": ("exploration", "AST-vs-constructor differential evaluation through Query/EvaluateDataBlockMetadata + JSON round-trip monitor",
+         "Trees built through the public constructors and builder sequences are compared, row by row and block by block, with the boolean combination the caller wrote (harness AST with reference leaf semantics); every expression and Query is round-tripped through encoding/json (same verdicts, stable bytes).",
+         "Builder orders whose meaning is unspecified (chained calls before Match) carry no verdict; strings valid UTF-8.", "6/C25"),
 }
 
 NOT_YET = "check not built yet in this session (design in DESIGN.md section 6); not claimed until its monitor exists and is silent on the unchanged tree"
